@@ -625,16 +625,30 @@ bool SimpSMTSolver::eliminateVar(Var v)
     setDecisionVar(v, false);
     eliminated_vars++;
 
+    // The value of v is later computed from the other literals of the saved clauses (extendModel): remember
+    // their variables so that they stay decision variables known to the theories even if they lose all clauses.
+    auto markNeededForModelExtension = [this, v](Clause const & c) {
+        for (unsigned k = 0; k < c.size(); k++) {
+            Var u = var(c[k]);
+            if (u == v) continue;
+            inElimClauses.growTo(u + 1, (char)false);
+            inElimClauses[u] = (char)true;
+        }
+    };
     if (pos.size() > neg.size())
     {
-        for (int i = 0; i < neg.size(); i++)
+        for (int i = 0; i < neg.size(); i++) {
+            markNeededForModelExtension(ca[neg[i]]);
             mkElimClause(elimclauses, v, ca[neg[i]]);
+        }
         mkElimClause(elimclauses, mkLit(v));
     }
     else
     {
-        for (int i = 0; i < pos.size(); i++)
+        for (int i = 0; i < pos.size(); i++) {
+            markNeededForModelExtension(ca[pos[i]]);
             mkElimClause(elimclauses, v, ca[pos[i]]);
+        }
         mkElimClause(elimclauses, ~mkLit(v));
     }
 
